@@ -10,8 +10,8 @@ import (
 )
 
 // ---------------------------------------------------------------------------
-// R07.4 unit discipline of string positions: a rune count is never compared
-// with or added to a byte count (contradiction rule: one function that counts
+// R07.4 unit discipline of string positions: a rune count is never equated
+// with, added to or subtracted from a byte count (contradiction rule: one function that counts
 // runes in one place and bytes in another for the same position is wrong in
 // one of them for every non ASCII string).
 
@@ -250,7 +250,13 @@ func ruleR074(c *Ctx) {
 				n++
 				checked++
 				key := fmt.Sprintf("%s#units[%d]:%s", name, n, nodeStr(c.Fset, be))
-				if a != unitNone && b != unitNone && a != b {
+				ordering := be.Op == token.LSS || be.Op == token.LEQ || be.Op == token.GTR || be.Op == token.GEQ
+				if a != unitNone && b != unitNone && a != b && ordering {
+					// a rune count never exceeds the byte count of the same text, so an ordering test between the two is a
+					// conservative bound one way round (runes >= bytes implies runes >= rune length); whether it is used
+					// the sound way round is not visible here. R07.5 covers what goes wrong behind an incomplete bound.
+					c.OK(key, be.Pos(), "ordering test between a rune count and a byte count: a conservative bound (runes <= bytes), not an equation of positions")
+				} else if a != unitNone && b != unitNone && a != b {
 					c.Violation(key, be.Pos(), "%s is counted in %s, %s in %s: for every string with a multi byte character the two differ, the position test is wrong (the function decodes runes for this position elsewhere)", nodeStr(c.Fset, be.X), a, nodeStr(c.Fset, be.Y), b)
 				} else {
 					c.OK(key, be.Pos(), "operands have the same unit (%s) or one is unit free", map[bool]strUnit{true: a, false: b}[a != unitNone])
@@ -261,5 +267,215 @@ func ruleR074(c *Ctx) {
 	}
 	if checked == 0 {
 		c.Undecided("value.String.Cut#units", token.NoPos, "no position arithmetic found in rune decoding functions")
+	}
+}
+
+// ---------------------------------------------------------------------------
+// R07.5 a rune that becomes part of a result is decoded from a non empty string
+
+// ruleR075: utf8.DecodeRuneInString("") returns (U+FFFD, 0). Where the decoded
+// rune is written into a result (WriteRune), the string it is decoded from has
+// to be known non empty on every path: forward must-analysis on the CFG with
+// the facts "checked" (the non-empty edge of a test of len(s) was taken since
+// the last assignment to s) / "unchecked".
+func ruleR075(c *Ctx) {
+	n := 0
+	forEachFuncBody(c.RepoPkgs, func(pkg *packages.Package, fn ast.Node, body *ast.BlockStmt) {
+		if !strings.HasSuffix(pkg.PkgPath, "/value") {
+			return
+		}
+		info := pkg.TypesInfo
+		// decodes whose rune is written
+		type site struct {
+			call *ast.CallExpr
+			sObj types.Object
+		}
+		var sites []site
+		inspectNoLit(body, func(x ast.Node) bool {
+			as, ok := x.(*ast.AssignStmt)
+			if !ok || len(as.Lhs) != 2 || len(as.Rhs) != 1 {
+				return true
+			}
+			call, ok := ast.Unparen(as.Rhs[0]).(*ast.CallExpr)
+			if !ok || !isDecodeRune(info, call) || len(call.Args) != 1 {
+				return true
+			}
+			rid, ok := as.Lhs[0].(*ast.Ident)
+			if !ok || rid.Name == "_" {
+				return true
+			}
+			robj := info.ObjectOf(rid)
+			written := containsNode(body, func(y ast.Node) bool {
+				wc, ok := y.(*ast.CallExpr)
+				if !ok || len(wc.Args) != 1 {
+					return false
+				}
+				sel, ok := ast.Unparen(wc.Fun).(*ast.SelectorExpr)
+				if !ok || sel.Sel.Name != "WriteRune" {
+					return false
+				}
+				id, ok := ast.Unparen(wc.Args[0]).(*ast.Ident)
+				return ok && info.ObjectOf(id) == robj
+			})
+			if !written {
+				return true
+			}
+			if sid, ok := ast.Unparen(call.Args[0]).(*ast.Ident); ok {
+				sites = append(sites, site{call, info.ObjectOf(sid)})
+			}
+			return true
+		})
+		if len(sites) == 0 {
+			return
+		}
+		g := c.CFG(fn)
+		if g == nil {
+			return
+		}
+		for _, st := range sites {
+			n++
+			key := fmt.Sprintf("%s#decode-of-nonempty[%d]", c.FuncName(fn)+litSuffix(c, fn), n)
+			// is the edge (cond, val) the non-empty outcome of a test of len(s)?
+			nonEmptyEdge := func(cond ast.Expr, val bool) (isTest, nonEmpty bool) {
+				var facts []Guard
+				expandGuard(cond, val, &facts)
+				for _, gd := range facts {
+					be, ok := ast.Unparen(gd.Cond).(*ast.BinaryExpr)
+					if !ok {
+						continue
+					}
+					lenOf := func(e ast.Expr) bool {
+						call, ok := ast.Unparen(e).(*ast.CallExpr)
+						if !ok || len(call.Args) != 1 {
+							return false
+						}
+						id, ok := ast.Unparen(call.Fun).(*ast.Ident)
+						if !ok || id.Name != "len" {
+							return false
+						}
+						a, ok := ast.Unparen(call.Args[0]).(*ast.Ident)
+						return ok && info.ObjectOf(a) == st.sObj
+					}
+					zero := func(e ast.Expr) bool {
+						v, ok := constInt(info.Types[e])
+						return ok && v == 0
+					}
+					if lenOf(be.X) && zero(be.Y) {
+						isTest = true
+						switch {
+						case be.Op == token.EQL && !gd.Val, be.Op == token.NEQ && gd.Val, be.Op == token.GTR && gd.Val, be.Op == token.LEQ && !gd.Val:
+							nonEmpty = true
+						}
+					}
+				}
+				return
+			}
+			// forward must-analysis over blocks: in[b] = AND over preds of out[p,edge]
+			nb := len(g.G.Blocks)
+			const (
+				bottom = iota // not reached yet
+				checked
+				unchecked
+			)
+			in := make([]int, nb)
+			in[0] = unchecked
+			transfer := func(b int, state int) int {
+				for _, node := range g.G.Blocks[b].Nodes {
+					if containsNode(node, func(y ast.Node) bool { return y == ast.Node(st.call) }) {
+						return state // the decode itself: state at the decode is what matters (handled below)
+					}
+					if as, ok := node.(*ast.AssignStmt); ok {
+						for _, l := range as.Lhs {
+							if id, ok := ast.Unparen(l).(*ast.Ident); ok && info.ObjectOf(id) == st.sObj {
+								state = unchecked
+							}
+						}
+					}
+				}
+				return state
+			}
+			stateAt := func(b int, state int) (int, bool) {
+				// state right before the decode if it is in this block
+				for _, node := range g.G.Blocks[b].Nodes {
+					if containsNode(node, func(y ast.Node) bool { return y == ast.Node(st.call) }) {
+						return state, true
+					}
+					if as, ok := node.(*ast.AssignStmt); ok {
+						for _, l := range as.Lhs {
+							if id, ok := ast.Unparen(l).(*ast.Ident); ok && info.ObjectOf(id) == st.sObj {
+								state = unchecked
+							}
+						}
+					}
+				}
+				return state, false
+			}
+			changed := true
+			for iter := 0; changed && iter < 4*nb+8; iter++ {
+				changed = false
+				for b := 0; b < nb; b++ {
+					if in[b] == bottom {
+						continue
+					}
+					// the whole block, including what follows a decode
+					out := in[b]
+					for _, node := range g.G.Blocks[b].Nodes {
+						if as, ok := node.(*ast.AssignStmt); ok {
+							for _, l := range as.Lhs {
+								if id, ok := ast.Unparen(l).(*ast.Ident); ok && info.ObjectOf(id) == st.sObj {
+									out = unchecked
+								}
+							}
+						}
+					}
+					_ = transfer
+					cond := g.condOf(g.G.Blocks[b])
+					for k, s := range g.G.Blocks[b].Succs {
+						o := out
+						if cond != nil {
+							if isTest, nonEmpty := nonEmptyEdge(cond, k == 0); isTest {
+								if nonEmpty {
+									o = checked
+								} else {
+									o = unchecked
+								}
+							}
+						}
+						si := int(s.Index)
+						nv := in[si]
+						switch {
+						case nv == bottom:
+							nv = o
+						case nv == checked && o == unchecked:
+							nv = unchecked
+						}
+						if nv != in[si] {
+							in[si] = nv
+							changed = true
+						}
+					}
+				}
+			}
+			verdict := -1
+			for b := 0; b < nb; b++ {
+				if in[b] == bottom {
+					continue
+				}
+				if s, here := stateAt(b, in[b]); here {
+					verdict = s
+				}
+			}
+			switch verdict {
+			case checked:
+				c.OK(key, st.call.Pos(), "on every path the string is known non empty when its first rune is decoded and written")
+			case unchecked:
+				c.Violation(key, st.call.Pos(), "a rune is decoded from %s and written into the result although the string can be empty on some path: decoding the empty string yields U+FFFD, the result then contains a character that is not part of the input (e.g. \"\".cut(0,1))", nodeStr(c.Fset, st.call.Args[0]))
+			default:
+				c.Undecided(key, st.call.Pos(), "decode site not found in the control flow graph")
+			}
+		}
+	})
+	if n == 0 {
+		c.Undecided("value#rune-decoding", token.NoPos, "no decoded rune that is written into a result found")
 	}
 }
